@@ -117,8 +117,10 @@ def mk_frame_equals(cls_a, cls_b, sym, tag, tier='quick', timeout=None):
         A, B = getattr(sf, cls_a), getattr(sf, cls_b)
         ca = [[kw['a0'], kw['a2']], [kw['a1'], kw['a3']]]  # columns
         cb = [[kw['b0'], kw['b2']], [kw['b1'], kw['b3']]]
-        fa = A.from_items(zip((kw['ca0'], kw['ca1']), ca), index=(kw['ia0'], kw['ia1']), name=na)
-        fb = B.from_items(zip((kw['cb0'], kw['cb1']), cb), index=(kw['ib0'], kw['ib1']), name=nb)
+        # typed arrays: from a plain list static-frame inspects every value's magnitude (one fork per symbolic value)
+        arr = lambda xs: env.array(list(xs), 'int64')   # noqa: E731
+        fa = A.from_items(zip(arr((kw['ca0'], kw['ca1'])), [arr(c) for c in ca]), index=arr((kw['ia0'], kw['ia1'])), name=na)
+        fb = B.from_items(zip(arr((kw['cb0'], kw['cb1'])), [arr(c) for c in cb]), index=arr((kw['ib0'], kw['ib1'])), name=nb)
         got = [env.obs(fa.equals(fb, compare_name=compare_name, compare_class=compare_class)),
                env.obs(fb.equals(fa, compare_name=compare_name, compare_class=compare_class))]
         e = ([kw[f'a{i}'] for i in range(4)] == [kw[f'b{i}'] for i in range(4)]
@@ -159,7 +161,7 @@ def mk_series_triple(n, sym_labels, tier='quick', timeout=None):
         def mk(p):
             vals = [nan_or(env, kw[f'{p}n{i}'], kw[f'{p}{i}']) for i in range(n)]
             labels = [kw[f'{p}i{i}'] for i in range(n)]
-            return vals, labels, sf.Series(env.array(vals, 'float64'), index=labels)
+            return vals, labels, sf.Series(env.array(vals, 'float64'), index=env.array(labels, 'int64'))
         va, la, sa = mk('a')
         vb, lb, sb = mk('b')
         vc, lc, sc = mk('c')
@@ -230,8 +232,9 @@ def body_he(env, na, nb, **kw):
     na, nb = concretize(na, 0, 5), concretize(nb, 0, 5)
     for p in ('ia0', 'ia1', 'ib0', 'ib1', 'ca0', 'ca1', 'cb0', 'cb1'):
         kw[p] = concretize(kw[p], 0, 3)
-    fa = sf.FrameHE.from_items(zip((kw['ca0'], kw['ca1']), [[kw['a0'], kw['a1']], [kw['a2'], kw['a3']]]), index=(kw['ia0'], kw['ia1']), name=na)
-    fb = sf.FrameHE.from_items(zip((kw['cb0'], kw['cb1']), [[kw['b0'], kw['b1']], [kw['b2'], kw['b3']]]), index=(kw['ib0'], kw['ib1']), name=nb)
+    arr = lambda xs: env.array(list(xs), 'int64')   # noqa: E731
+    fa = sf.FrameHE.from_items(zip((kw['ca0'], kw['ca1']), [arr([kw['a0'], kw['a1']]), arr([kw['a2'], kw['a3']])]), index=(kw['ia0'], kw['ia1']), name=na)
+    fb = sf.FrameHE.from_items(zip((kw['cb0'], kw['cb1']), [arr([kw['b0'], kw['b1']]), arr([kw['b2'], kw['b3']])]), index=(kw['ib0'], kw['ib1']), name=nb)
     eq = fa == fb
     ne = fa != fb
     eq_r = fb == fa
